@@ -20,6 +20,8 @@ THOROUGH_PKGS = QUICK_PKGS + ["./tm/tmintegration/...", "./tm/tmgossip/...", "./
 def run_suite(ctx, props, thorough=None, kind="mirror"):
     """Runs the repository tests of the packages that start mirror kernels under the monitor.
     Returns a coverage dict; reports violations for `props` through ctx.violation."""
+    if ctx.replay:
+        return {}     # --replay re-runs one stored case only
     thorough = (not ctx.quick()) if thorough is None else thorough
     opkg, prefix, envvar, qp = KINDS[kind]
     ov = ctx.harness_overlay(opkg, only=(prefix,))
